@@ -1237,3 +1237,68 @@ func verifC12Select(T int) {
 }
 
 func VerifC12SelectQuick() { verifC12Select(2) }
+
+// ---------------------------------------------------------------- C12 (block play against a submission)
+
+// verifC12PlayVsSubmit: a peer's block (award + p1) is played while a transaction is submitted to the
+// pool concurrently - p1 itself, a transaction conflicting with p1, or an independent one - under every
+// interleaving within the preemption bound. The node must end up like a node that did the two
+// operations one after the other, in one of the two orders.
+func verifC12PlayVsSubmit() {
+	x := big.NewInt(vrt.Int("x", 1, 8))
+	mk := func(name string) (*vkit.Env, *state.State, *pb.InternalBlock, []*pb.Transaction) {
+		e := vkit.NewEnv(name, vkit.Genesis("0", "9", "5"), nil)
+		s := e.NewState("live")
+		vrt.Assert(s.Play(e.Root.Blockid) == nil, "genesis-plays")
+		root := e.RootTx.Txid
+		nine, five := big.NewInt(9), big.NewInt(5)
+		p1 := vkit.WithKey(vkit.Tx("p1", []*protos.TxInput{vkit.In(root, 0, "A", nine)}, []*protos.TxOutput{vkit.Out("C", x, 0), vkit.Out("A", new(big.Int).Sub(nine, x), 0)}), "bk", "k1", nil, 0, []byte("p1"))
+		p2 := vkit.Tx("p2", []*protos.TxInput{vkit.In(root, 0, "A", nine)}, []*protos.TxOutput{vkit.Out("B", nine, 0)})
+		p3 := vkit.Tx("p3", []*protos.TxInput{vkit.In(root, 1, "B", five)}, []*protos.TxOutput{vkit.Out("C", five, 0)})
+		p1b := *p1 // the copy that travels in the block
+		b := vkit.Block(e.Root.Blockid, 1, []*pb.Transaction{vkit.Coinbase("cb1", "M", []byte{7}), &p1b})
+		vrt.Assert(e.L.ConfirmBlock(b, false).Succ, "block-confirmed-by-ledger")
+		return e, s, b, []*pb.Transaction{p1, p2, p3}
+	}
+	which := vrt.Choice("submitted", 3)
+	_, s, b, fam := mk("c12p")
+	var perr, derr error
+	var wg sync.WaitGroup
+	vrt.ExploreSchedules(true)
+	wg.Add(2)
+	go func() { defer wg.Done(); perr = s.Play(b.Blockid) }()
+	go func() { defer wg.Done(); derr = s.DoTx(fam[which]) }()
+	wg.Wait()
+	vrt.ExploreSchedules(false)
+	vrt.Quiesce()
+	live := vkit.Observe(s)
+	// the two one-at-a-time orders on fresh nodes
+	matches := false
+	for order := 0; order < 2; order++ {
+		_, r, rb, rfam := mk("c12p-ref" + string([]byte{byte('0' + order)}))
+		var rp, rd error
+		if order == 0 {
+			rd = r.DoTx(rfam[which])
+			rp = r.Play(rb.Blockid)
+		} else {
+			rp = r.Play(rb.Blockid)
+			rd = r.DoTx(rfam[which])
+		}
+		vrt.Quiesce()
+		same := (rp == nil) == (perr == nil) && (rd == nil) == (derr == nil)
+		vkit.Same(live, vkit.Observe(r), func(c bool, label string) {
+			if !c {
+				same = false
+			}
+		})
+		if same {
+			matches = true
+		}
+	}
+	vrt.Cover("submission-refused", derr != nil)
+	vrt.Cover("submission-admitted", derr == nil)
+	vrt.Assert(perr == nil, "valid-block-is-played")
+	vrt.Assert(matches, "outcome-equals-one-of-the-two-sequential-orders")
+}
+
+func VerifC12PlayVsSubmit() { verifC12PlayVsSubmit() }
